@@ -21,7 +21,7 @@ THEOREMS = [N + t for t in (
     "preConnect_neutral")]
 COMPS = ["brokerhooks"]      # the Lean oracle; the Go side is drive_broker (+ hooks.go)
 GO_EXTRA = ["broker"]
-NEEDS_FACTS = True
+NEEDS_FACTS = ["Hooks"]
 
 # hook kinds whose events the Lean oracle predicts; the others are checked by the predicate only
 UNMODELLED = ("OnDelivered", "OnMsgDropped", "OnStop")
@@ -959,7 +959,7 @@ def run(r):
     r.recognisers.update(RECOGNISERS)
     rc, out = core.build_go(r.log, ["extract"])
     if rc == 0:
-        rc, out = core.extract_facts(r.log)
+        rc, out = core.extract_facts(r.log, NEEDS_FACTS)
     if rc != 0:
         r.violation("extract", "# fact extractor failed on /repo: the regenerated tie no longer checks\n" + out[-3000:], False,
                     "extractor failed")
